@@ -11,8 +11,18 @@ pub mod stubs;
 #[cfg(kani)]
 mod em;
 #[cfg(kani)]
+mod io_async;
+#[cfg(kani)]
+mod lay;
+#[cfg(kani)]
+mod io_blk;
+#[cfg(kani)]
+mod pipes;
+#[cfg(kani)]
 mod port;
 #[cfg(kani)]
 mod ro;
+#[cfg(kani)]
+mod step;
 #[cfg(kani)]
 mod utf8;
